@@ -350,3 +350,264 @@ Proof.
   unfold touch in Hc. cbn [fst snd k_last set] in Hc. rewrite El in Hc. specialize (HID a). cbn [inb existsb] in HID.
   destruct (inb a (chain (last_iref w p))); lia.
 Qed.
+
+(* ---- dequeue ------------------------------------------------------------------------------------------------------------------------------ *)
+Lemma swap_remove_keeps : forall w l x, In x l -> x <> w -> In x (swap_remove w l).
+Proof.
+  intros w l x Hx Hne. destruct (in_dec wref_eq_dec w l) as [Hw|Hw].
+  - pose proof (swap_remove_perm w l Hw) as Hp. apply (Permutation.Permutation_in _ Hp) in Hx. destruct Hx as [E|Hx]; [congruence|exact Hx].
+  - rewrite swap_remove_notin by exact Hw. exact Hx.
+Qed.
+
+Lemma TC_dequeue_worker : forall rem ext w s, TC rem ext s -> TC rem ext (dequeue_worker w s).
+Proof.
+  intros rem ext w s H. pose proof (SW_dequeue_worker w s (TC_SW _ _ _ H)) as HSW'. unfold dequeue_worker in *.
+  destruct (k_last (get_worker s w)) as [p|] eqn:El; [|tc_go1].
+  destruct H as [HSW [HKW [HID [HEC [HQP HNQ]]]]]. split; [exact HSW'|].
+  set (s1 := upd_inv (last_iref w p) (fun v => v <| v_isync ::= swap_remove w |>) s) in *.
+  assert (H1 : IDs rem s1 /\ EC ext s1 /\ QPs s1 /\ NQ s1) by (unfold s1; split; [t_IDs|split; [t_EC|split; [t_QP|t_NQ]]]).
+  destruct H1 as [HID1 [HEC1 [HQP1 HNQ1]]].
+  split; [|split; [t_IDs|split; [t_EC|split; [t_QP|t_NQ]]]].
+  intros w' He Hw. rewrite worker_exists_upd_worker in He. rewrite get_worker_upd_worker in Hw |- *.
+  assert (Hex1 : forall x, worker_exists s1 x = worker_exists s x) by (intro; apply worker_exists_frame; apply scqs_upd_inv).
+  assert (Hgw1 : forall x, get_worker s1 x = get_worker s x) by (intro; apply get_worker_frame'; apply scqs_upd_inv).
+  rewrite Hex1 in *. rewrite !Hgw1 in *.
+  destruct (wref_eqb w' w && worker_exists s w) eqn:E; [cbn in Hw; discriminate|].
+  assert (Hne : w' <> w).
+  { intros ->. rewrite wref_eqb_refl, He in E. discriminate. }
+  destruct (HKW w' He Hw) as [p' [A B]]. exists p'. split; [exact A|].
+  rewrite (get_inv_frame s1) by (rewrite upd_worker_eq; reflexivity). unfold s1. rewrite get_inv_upd_inv.
+  destruct (iref_eqb (last_iref w' p') (last_iref w p) && inv_exists s (last_iref w p)) eqn:E2; [|exact B].
+  apply andb_true_iff in E2. destruct E2 as [E2 _]. apply iref_eqb_eq in E2. rewrite <- E2. cbn. apply swap_remove_keeps; assumption.
+Qed.
+
+(* ---- incrementExecutingWorkersCount: what it adds --------------------------------------------------------------------------------------- *)
+Lemma ecount_upd_inv : forall s i f a w,
+  ecount (upd_inv i f s) a w = if iref_eqb a i && inv_exists s i then xcnt (v_exec (f (get_inv s i))) w else ecount s a w.
+Proof. intros. rewrite ecount_xcnt, get_inv_upd_inv. destruct (iref_eqb a i && inv_exists s i); reflexivity. Qed.
+
+Lemma ecount_incr_chain : forall l w z s a w', NoDup l ->
+  ecount (fold_left (fun s j => upd_inv j (fun v => v <| v_exec ::= exec_incr w |> <| v_started := z s |>) s) l s) a w'
+  = (ecount s a w' + (if wref_eqb w' w && (inb a l && inv_exists s a) then 1 else 0))%nat.
+Proof.
+  induction l as [|x l IH]; intros w z s a w' Hnd; cbn [fold_left]; [cbn; rewrite andb_false_r; lia|].
+  inversion Hnd as [|? ? Hx Hnd']; subst. rewrite (IH _ _ _ a w' Hnd'). rewrite inv_exists_upd_inv, ecount_upd_inv.
+  unfold inb. cbn [existsb]. fold (inb a l).
+  destruct (iref_eqb a x) eqn:E.
+  - apply iref_eqb_eq in E. subst a. assert (Hn : inb x l = false) by (apply inb_false; exact Hx). rewrite Hn. cbn [orb andb].
+    destruct (inv_exists s x) eqn:Ee; cbn [andb]; [|rewrite andb_false_r; lia]. cbn [v_exec set]. rewrite xcnt_exec_incr, <- ecount_xcnt.
+    rewrite andb_false_r, andb_true_r. destruct (wref_eqb w' w); lia.
+  - cbn [orb andb]. lia.
+Qed.
+
+Lemma ecount_increment : forall i w s a w',
+  ecount (increment_executing i w s) a w' = (ecount s a w' + (if wref_eqb w' w && (inb a (chain i) && inv_exists s a) then 1 else 0))%nat.
+Proof. intros. unfold increment_executing. apply (ecount_incr_chain (chain i) w s_now). apply chain_NoDup. Qed.
+
+Lemma inv_exists_increment : forall i w s a, inv_exists (increment_executing i w s) a = inv_exists s a.
+Proof.
+  intros i w s a. unfold increment_executing. apply (fold_left_pres (fun s' => inv_exists s' a = inv_exists s a)); [|reflexivity].
+  intros a' j Ha'. rewrite inv_exists_upd_inv. exact Ha'.
+Qed.
+
+Lemma ecount_incr_fold : forall l w s a, (forall i, In i l -> anc_exist s i) ->
+  (ecount s a w + flen (fun i => inb a (chain i)) l <= ecount (fold_left (fun s i => increment_executing i w s) l s) a w)%nat.
+Proof.
+  induction l as [|i l IH]; intros w s a Hae; cbn [fold_left]; [unfold flen; cbn; lia|].
+  assert (Hae' : forall i', In i' l -> anc_exist (increment_executing i w s) i').
+  { intros i' Hi' x Hx. rewrite inv_exists_increment. apply (Hae i' (or_intror Hi')). exact Hx. }
+  specialize (IH w (increment_executing i w s) a Hae'). rewrite ecount_increment in IH. rewrite wref_eqb_refl in IH. cbn [andb] in IH.
+  unfold flen in *. cbn [filter]. destruct (inb a (chain i)) eqn:Ein; cbn [andb List.length] in *; [|lia].
+  apply inb_In in Ein. rewrite (Hae i (or_introl eq_refl) a Ein) in IH. lia.
+Qed.
+
+Lemma flen_map : forall {A B} (g : A -> B) (P : B -> bool) l, flen P (map g l) = flen (fun x => P (g x)) l.
+Proof. intros A B g P. induction l as [|x l IH]; [reflexivity|]. unfold flen in *. cbn. destruct (P (g x)); cbn; rewrite IH; reflexivity. Qed.
+
+(* ---- assignUnqueuedTask ------------------------------------------------------------------------------------------------------------------ *)
+Ltac tc_leaf1 :=
+  first [ tc_leaf0
+        | lazymatch goal with
+          | |- TC _ _ (clear_last_invocation _ _) => apply TC_clear_last_invocation
+          | |- TC _ _ (dequeue_worker _ _) => apply TC_dequeue_worker
+          | |- TC _ _ (increment_executing _ _ _) => apply TC_increment_executing
+          end ].
+Ltac tc_go2 := inv_go tc_leaf1 t_TC.
+
+Lemma TC_incr_fold : forall rem ext l w s, TC rem ext s -> TC rem ext (fold_left (fun s i => increment_executing i w s) l s).
+Proof. intros rem ext l w s H. apply fold_left_pres; [|exact H]. intros. apply TC_increment_executing. assumption. Qed.
+
+Lemma incr_fold_tasks : forall l w s, s_tasks (fold_left (fun s i => increment_executing i w s) l s) = s_tasks s.
+Proof.
+  intros l w s. apply (fold_left_pres (fun s' => s_tasks s' = s_tasks s)); [|reflexivity].
+  intros a i Ha. unfold increment_executing. apply (fold_left_pres (fun s' => s_tasks s' = s_tasks s)); [|exact Ha].
+  intros a' j Ha'. rewrite upd_inv_eq. exact Ha'.
+Qed.
+
+(* the task becomes the worker's; its counters are established when its invocations exist *)
+Lemma TC_assign_unqueued : forall ext w t r s,
+  (forall i o, In (i, o) (t_ops (get_task s t)) -> anc_exist s i) ->
+  TC [] ext s -> TC [] ext (assign_unqueued w t r s).
+Proof.
+  intros ext w t r s Hae H. unfold assign_unqueued. cbv zeta.
+  destruct (negb (is_phantom w) && _); [tc_go2|].
+  destruct (t_worker (get_task s t)) eqn:Etw; [tc_go2|].
+  set (s1 := upd_worker w (fun k => k <| k_task := Some t |>) s).
+  set (s2 := upd_task t (fun x => x <| t_worker := Some w |> <| t_retry := 0%nat |>) s1).
+  assert (H2 : TC [] (t :: ext) s2).
+  { apply TC_weaken with (t := t) in H. unfold s2, s1. destruct H as [HSW [HKW [HID [HEC [HQP HNQ]]]]].
+    assert (H1 : SW s1 /\ KW s1 /\ IDs [] s1 /\ EC (t :: ext) s1 /\ QPs s1 /\ NQ s1) by (unfold s1; split; [t_SW'|split; [t_KW|split; [t_IDs|split; [t_EC|split; [t_QP|t_NQ]]]]]).
+    fold s1. destruct H1 as [A [B [C [D [E F]]]]]. split; [t_SW'|split; [t_KW|split; [t_IDs|split; [t_EC|split; [t_QP|t_NQ]]]]]. }
+  assert (Eops2 : get_task s2 t = (get_task s t) <| t_worker := Some w |> <| t_retry := 0%nat |>).
+  { unfold s2. rewrite get_task_upd_task, Nat.eqb_refl. rewrite (get_task_frame s) by (unfold s1; rewrite upd_worker_eq; reflexivity). reflexivity. }
+  assert (Einv : task_invs s2 t = map fst (t_ops (get_task s t))) by (unfold task_invs; rewrite Eops2; reflexivity).
+  rewrite Einv.
+  set (s3 := fold_left (fun s i => increment_executing i w s) (map fst (t_ops (get_task s t))) s2).
+  assert (H3 : TC [] ext s3).
+  { pose proof (TC_incr_fold [] (t :: ext) (map fst (t_ops (get_task s t))) w s2 H2) as H3. fold s3 in H3.
+    destruct H3 as [A [B [C [D E]]]]. split; [exact A|]. split; [exact B|]. split; [exact C|]. split; [|exact E].
+    intros a t' w' Hn Ht'. destruct (Nat.eq_dec t' t) as [->|Hne]; [|apply D; [intros [E1|Hin]; [congruence|contradiction]|exact Ht']].
+    assert (Et3 : get_task s3 t = get_task s2 t) by (apply get_task_frame; apply incr_fold_tasks).
+    rewrite Et3, Eops2 in *. cbn [t_worker t_ops set] in *. injection Ht' as <-.
+    assert (Hae2 : forall i, In i (map fst (t_ops (get_task s t))) -> anc_exist s2 i).
+    { intros i Hi. apply in_map_iff in Hi. destruct Hi as [[i0 o] [<- Hin]]. intros x Hx. unfold s2, s1.
+      rewrite (inv_exists_frame s) by (rewrite upd_task_eq; cbn; rewrite upd_worker_eq; reflexivity). exact (Hae i0 o Hin x Hx). }
+    pose proof (ecount_incr_fold (map fst (t_ops (get_task s t))) w s2 a Hae2) as Hc. fold s3 in Hc.
+    rewrite flen_map in Hc. unfold cnto. lia. }
+  clearbody s3. tc_go2.
+Qed.
+
+(* without that knowledge, the task stays exempt *)
+Lemma TC_assign_unqueued_ext : forall ext w t r s, TC [] ext s -> TC [] (t :: ext) (assign_unqueued w t r s).
+Proof.
+  intros ext w t r s H. apply TC_weaken with (t := t) in H. unfold assign_unqueued. cbv zeta.
+  destruct (negb (is_phantom w) && _); [tc_go2|].
+  destruct (t_worker (get_task s t)) eqn:Etw; [tc_go2|].
+  match goal with |- TC _ _ (upd_worker _ _ (clear_last_invocation _ (fold_left _ ?l ?s2))) =>
+    assert (H2 : TC [] (t :: ext) s2); [|generalize l; intro l0; pose proof (TC_incr_fold [] (t :: ext) l0 w s2 H2) as H3; set (s3 := fold_left _ l0 s2) in *; clearbody s3; tc_go2] end.
+  destruct H as [HSW [HKW [HID [HEC [HQP HNQ]]]]].
+  set (s1 := upd_worker w (fun k => k <| k_task := Some t |>) s).
+  assert (H1 : SW s1 /\ KW s1 /\ IDs [] s1 /\ EC (t :: ext) s1 /\ QPs s1 /\ NQ s1) by (unfold s1; split; [t_SW'|split; [t_KW|split; [t_IDs|split; [t_EC|split; [t_QP|t_NQ]]]]]).
+  destruct H1 as [A [B [C [D [E F]]]]]. split; [t_SW'|split; [t_KW|split; [t_IDs|split; [t_EC|split; [t_QP|t_NQ]]]]].
+Qed.
+
+Lemma TC_assign_queued : forall ext w t r s,
+  (forall i o, In (i, o) (t_ops (get_task s t)) -> anc_exist s i) ->
+  TC [] ext s -> TC [] ext (assign_queued w t r s).
+Proof.
+  intros ext w t r s Hae H. unfold assign_queued. cbv zeta.
+  pose proof (TC_assign_unqueued ext w t r s Hae H) as H1. set (s1 := assign_unqueued w t r s) in *. clearbody s1.
+  apply TC_T_gen. apply fold_left_pres; [|exact H1]. intros. apply TC_remove_queued. assumption.
+Qed.
+Lemma TC_assign_queued_ext : forall ext w t r s, TC [] ext s -> TC [] (t :: ext) (assign_queued w t r s).
+Proof.
+  intros ext w t r s H. unfold assign_queued. cbv zeta.
+  pose proof (TC_assign_unqueued_ext ext w t r s H) as H1. set (s1 := assign_unqueued w t r s) in *. clearbody s1.
+  apply TC_T_gen. apply fold_left_pres; [|exact H1]. intros. apply TC_remove_queued. assumption.
+Qed.
+
+(* ---- invocations with parked workers exist with their ancestors --------------------------------------------------------------------- *)
+Lemma IPs_of_TC : forall ext s, TC [] ext s -> IPs s.
+Proof.
+  intros ext s [HSW [_ [HID _]]] d v Hin Hv a Ha.
+  pose proof (SW_St _ HSW) as [_ [_ [Hnd _]]]. pose proof (SW_WP _ HSW) as [_ [_ [_ [_ [_ [X8 _]]]]]].
+  destruct (in_invs_get s d v Hnd Hin) as [Eg _].
+  destruct v as [qo fi ex st co idl isy]. cbn in Hv. destruct isy as [|w isy]; [contradiction|].
+  assert (Hw : In w (v_isync (get_inv s d))) by (rewrite Eg; left; reflexivity).
+  destruct (X8 d w Hw) as [He [_ [Hl Hk]]].
+  assert (Ed : last_iref w (i_path d) = d) by (destruct d; unfold last_iref; cbn in *; rewrite Hk; reflexivity).
+  pose proof (cntw_ge_one s w (i_path d) a He Hl) as Hc. rewrite Ed in Hc. specialize (Hc Ha).
+  specialize (HID a). cbn [inb existsb] in HID.
+  unfold inv_exists. unfold idle_at, get_inv in HID. destruct (aget iref_eqb a (s_invs s)); [reflexivity|cbn in HID; lia].
+Qed.
+
+(* ---- enqueue ---------------------------------------------------------------------------------------------------------------------------------- *)
+Lemma QPs_upd_inv_grow : forall s i f, (inv_exists s i = true -> anc_exist s i) -> QPs s -> QPs (upd_inv i f s).
+Proof.
+  unfold QPs. intros s i f Hae H d v Hin Hq.
+  apply (anc_exist_mono s); [intros a Ha; rewrite inv_exists_upd_inv; exact Ha|].
+  apply in_upd_inv in Hin. destruct Hin as [Hin|[-> [He _]]]; [exact (H d v Hin Hq)|exact (Hae He)].
+Qed.
+
+Lemma NQ_upd_inv_grow : forall s i f,
+  (inv_exists s i = true -> forall w, worker_exists s w = true -> k_wait (get_worker s w) = true -> w_sk w <> i_sk i) ->
+  NQ s -> NQ (upd_inv i f s).
+Proof.
+  unfold NQ. intros s i f Hnw H w. rewrite (worker_exists_frame s) by apply scqs_upd_inv. rewrite (get_worker_frame' s) by apply scqs_upd_inv.
+  intros He Hw. specialize (H w He Hw). destruct (is_queued (upd_inv i f s) (mkI (w_sk w) [])) eqn:E; [|reflexivity]. exfalso.
+  apply is_queued_iff in E. destruct E as [d [v [Hin [Hc Hq]]]]. apply in_upd_inv in Hin. destruct Hin as [Hin|[-> [Hex _]]].
+  - assert (Hqs : is_queued s (mkI (w_sk w) []) = true) by (apply is_queued_iff; exists d, v; auto). congruence.
+  - apply (Hnw Hex w He Hw). destruct i as [ik ip]. apply in_chain in Hc. cbn in *. exact (proj1 Hc).
+Qed.
+
+Lemma TC_enqueue : forall rem ext o s,
+  (inv_exists s (o_inv (get_op s o)) = true ->
+     anc_exist s (o_inv (get_op s o)) /\
+     forall w, worker_exists s w = true -> k_wait (get_worker s w) = true -> w_sk w <> i_sk (o_inv (get_op s o))) ->
+  TC rem ext s -> TC rem ext (enqueue o s).
+Proof.
+  intros rem ext o s Hi H. unfold enqueue. cbv zeta. set (i := o_inv (get_op s o)) in *.
+  apply fold_left_pres; [intros; apply TC_update_first_priority; assumption|].
+  destruct H as [HSW [HKW [HID [HEC [HQP HNQ]]]]].
+  split; [t_SW'|split; [t_KW|split; [t_IDs|split; [t_EC|split]]]].
+  - apply QPs_upd_inv_grow; [intro He; exact (proj1 (Hi He))|exact HQP].
+  - apply NQ_upd_inv_grow; [intro He; exact (proj2 (Hi He))|exact HNQ].
+Qed.
+
+(* ---- task.schedule --------------------------------------------------------------------------------------------------------------------------- *)
+Lemma no_waiting_of_no_cands : forall ext s invs k,
+  TC [] ext s -> invs <> [] -> (forall i, In i invs -> i_sk i = k) ->
+  schedule_candidates (S (max_depth invs)) s invs = [] ->
+  forall w, worker_exists s w = true -> k_wait (get_worker s w) = true -> w_sk w <> k.
+Proof.
+  intros ext s invs k H Hne Hk Hc w He Hw Esk.
+  pose proof (IPs_of_TC _ _ H) as HI. destruct H as [HSW [HKW _]]. pose proof (SW_St _ HSW) as [_ [_ [Hnd _]]].
+  destruct (HKW w He Hw) as [p [Hl Hin]]. set (d := last_iref w p) in *.
+  assert (Hex : inv_exists s d = true).
+  { unfold inv_exists. unfold get_inv in Hin. destruct (aget iref_eqb d (s_invs s)); [reflexivity|destruct Hin]. }
+  apply (schedule_candidates_nonempty (S (max_depth invs)) s invs k Hnd HI Hne Hk); [|lia|exact Hc].
+  apply has_idle_sync_iff. exists d, (get_inv s d). split; [apply inv_exists_in; exact Hex|]. split.
+  - rewrite <- Esk. change (w_sk w) with (i_sk d). apply in_chain_root.
+  - intro E. rewrite E in Hin. destruct Hin.
+Qed.
+
+Lemma TC_schedule : forall ext t s k,
+  (forall i o, In (i, o) (t_ops (get_task s t)) -> anc_exist s i /\ o_inv (get_op s o) = i /\ i_sk i = k) ->
+  TC [] ext s -> TC [] ext (schedule t s).
+Proof.
+  intros ext t s k Hops H. unfold schedule. cbv zeta.
+  destruct (pick_worker s t _) as [w|] eqn:Ep.
+  - apply TC_assign_unqueued; [|unfold wake_up; apply TC_dequeue_worker; exact H].
+    intros i o Hin a Ha. unfold wake_up, dequeue_worker in *.
+    assert (Et : forall s', s' = match k_last (get_worker s w) with Some p => upd_worker w (fun k0 => k0 <| k_wait := false |>) (upd_inv (last_iref w p) (fun v => v <| v_isync ::= swap_remove w |>) s) | None => panic "dequeue of a worker without last invocation" s end ->
+               s_tasks s' = s_tasks s /\ forall x, inv_exists s' x = inv_exists s x).
+    { intros s' ->. destruct (k_last (get_worker s w)); [|split; [reflexivity|intro; reflexivity]].
+      split; [rewrite upd_worker_eq; cbn; rewrite upd_inv_eq; reflexivity|].
+      intro x. rewrite (inv_exists_frame (upd_inv _ _ s)) by (rewrite upd_worker_eq; reflexivity). apply inv_exists_upd_inv. }
+    destruct (Et _ eq_refl) as [E1 E2]. rewrite (get_task_frame _ _ _ E1) in Hin. rewrite E2. exact (proj1 (Hops i o Hin) a Ha).
+  - (* nobody to hand the task to: nobody waits in this size class queue *)
+    assert (Hc : t_ops (get_task s t) <> [] -> schedule_candidates (S (max_depth (task_invs s t))) s (task_invs s t) = []).
+    { intros _. destruct (schedule_candidates _ s (task_invs s t)) eqn:Ec; [reflexivity|]. exfalso.
+      pose proof (pick_worker_some s t (w :: l)) as Hp. rewrite Ep in Hp. apply Hp; [discriminate|reflexivity]. }
+    assert (Hnw : t_ops (get_task s t) <> [] -> forall w, worker_exists s w = true -> k_wait (get_worker s w) = true -> w_sk w <> k).
+    { intros Hne. apply (no_waiting_of_no_cands ext s (task_invs s t) k H); [unfold task_invs; destruct (t_ops (get_task s t)); [contradiction|discriminate]| |exact (Hc Hne)].
+      intros i Hi. unfold task_invs in Hi. apply in_map_iff in Hi. destruct Hi as [[i0 o] [<- Hin]]. exact (proj2 (proj2 (Hops i0 o Hin))). }
+    unfold task_opids.
+    assert (Hgen : forall l a, (forall o, In o l -> exists i, In (i, o) (t_ops (get_task s t))) ->
+              TC [] ext a -> s_ops a = s_ops s -> s_scqs a = s_scqs s -> (forall x, inv_exists a x = inv_exists s x) ->
+              TC [] ext (fold_left (fun s o => enqueue o s) l a)).
+    { induction l as [|o l IH]; intros a Hl Ha Eo Es Ei; cbn [fold_left]; [exact Ha|].
+      destruct (Hl o (or_introl eq_refl)) as [i Hin]. destruct (Hops i o Hin) as [Hae [Hoi Hsk]].
+      destruct (enqueue_reads o a) as [R1 [R2 _]]. destruct (enqueue_reads2 o a) as [_ [_ R3]].
+      apply IH; [intros o' Ho'; apply Hl; right; exact Ho'| |congruence| |intro x; rewrite R3; apply Ei].
+      - apply TC_enqueue; [|exact Ha]. rewrite (get_op_frame _ _ _ Eo), Hoi. intros _. split.
+        + intros x Hx. rewrite Ei. exact (Hae x Hx).
+        + intros w He Hw. rewrite (worker_exists_frame _ _ _ Es) in He. rewrite (get_worker_frame' _ _ _ Es) in Hw. rewrite Hsk.
+          apply Hnw; [intro E; rewrite E in Hin; destruct Hin|exact He|exact Hw].
+      - unfold enqueue. cbv zeta. rewrite <- Es.
+        apply (fold_left_pres (fun s' => s_scqs s' = s_scqs a)); [|apply scqs_upd_inv].
+        intros a' j Ha'. unfold update_first_priority. cbv zeta. destruct (min_op a' _); [rewrite scqs_upd_inv; exact Ha'|].
+        destruct (minimal _ _); [exact Ha'|rewrite scqs_upd_inv; exact Ha']. }
+    apply Hgen; [|exact H|reflexivity|reflexivity|reflexivity].
+    intros o Ho. apply in_map_iff in Ho. destruct Ho as [[i o'] [<- Hin]]. exists i. exact Hin.
+Qed.
